@@ -19,7 +19,7 @@ RULE = ('seeded generator: circular / hexagon-like / segmented / off-centre / sp
 ASSUMPTIONS = ['modes linearly independent on the mask (condition number < 1e8), as the property requires']
 PLAN = {'quick': {'gen': 8}, 'thorough': {'gen': 16, 'tests': 1}}
 REQUIRED_BUCKETS = ['modes:contiguous', 'modes:noncontiguous', 'modes:unordered', 'modes:single-high', 'normalize:True',
-                    'normalize:False', 'coords:default', 'coords:supplied', 'mask:circular', 'mask:segmented', 'mask:offcentre', 'mask:weighted', 'mask:subaperture', 'cond>1e4', 'coords:switched', 'outside:fill', 'coeffs:vector-forms', 'modes:very-high', 'modes:permuted-prefix', 'modes:many', 'modes:array-forms', 'coords:half-supplied', 'coords:narrow-float']
+                    'normalize:False', 'coords:default', 'coords:supplied', 'mask:circular', 'mask:segmented', 'mask:offcentre', 'mask:weighted', 'mask:subaperture', 'cond>1e4', 'coords:switched', 'outside:fill', 'coeffs:vector-forms', 'modes:very-high', 'modes:permuted-prefix', 'modes:many', 'modes:array-forms', 'coords:half-supplied', 'coords:narrow-float', 'remove:ill-conditioned']
 REQUIRED_ANCHORS = ['anchor:zernike_fit', 'anchor:zernike_remove', 'anchor:zernike_compose', 'anchor:zernike_basis']
 REQUIRED_ORACLES = ['compose=own-basis', 'fit=coeffs', 'remove:residual-coeffs=0', 'remove=lstsq', 'remove:idempotent',
                     'remove:pure->0']
@@ -74,9 +74,52 @@ def make_mask(rng, shape):
     return gen.support(rng, shape, kind=2), 'speckle'
 
 
+def ill_conditioned(ctx, lentil, rng):
+    """One segment of a hexagonal aperture described in the coordinates of the whole pupil, 22 ... 37 modes: linearly independent
+    (condition 1e8 ... 1e11, five orders of magnitude inside double precision) but far from orthogonal.  The coefficients of such a
+    fit are only good to cond * eps - nothing is asked of them - but the REMOVED component is a projection, which a least-squares
+    solver delivers to rounding whatever the condition: an OPD made only of the modes goes to zero, and removing twice changes
+    nothing."""
+    for i in range(ctx.count(6, 30)):
+        rings = int(rng.integers(2, 4))
+        segs = np.asarray(lentil.hex_segments(rings=rings, seg_radius=int(rng.integers(14, 22)), seg_gap=2, flatten=False), float)
+        with probe.quiet():
+            rho, theta = lentil.zernike_coordinates(segs.sum(axis=0))
+        seg = segs[-1 - int(rng.integers(0, 3))]
+        mask = seg != 0
+        k = int(rng.integers(22, 38))
+        modes = list(range(1, k + 1))
+        B = own_basis(modes, mask, np.asarray(rho, float), np.asarray(theta, float), True)
+        sv = np.linalg.svd(B[:, mask].T, compute_uv=False)
+        cond = float(sv[0] / sv[-1]) if sv[-1] > 0 else np.inf
+        if not (1e8 <= cond <= 1e11):
+            ctx.skip('ill-conditioned scenario: condition outside 1e8 ... 1e11')
+            continue
+        c = rng.normal(size=k) * 1e-8
+        pure = np.tensordot(c, B, axes=1)
+        desc = {'ill-conditioned': k, 'rings': rings, 'cond': cond, 'shape': list(mask.shape)}
+        ctx.case(desc, ['remove:ill-conditioned'])
+        # what a least-squares solver leaves of the same system (the yardstick's own rounding: 1e-15 ... 1e-13)
+        xr = np.linalg.lstsq(B[:, mask].T, pure[mask], rcond=None)[0]
+        floor_ = float(np.abs(pure[mask] - B[:, mask].T @ xr).max())
+        sc = float(np.abs(pure).max())
+        try:
+            r1 = np.asarray(lentil.zernike_remove(pure, seg, modes, rho=rho, theta=theta), float)
+            r2 = np.asarray(lentil.zernike_remove(r1, seg, modes, rho=rho, theta=theta), float)
+            ctx.close('remove:pure->0', r1, np.zeros(mask.shape), 1e-9, 'remove|pure|ill-conditioned',
+                      'an OPD made only of the removed modes (independent, condition 1e8 ... 1e11) is not reduced to zero: the removed component '
+                      'is not the least-squares projection to rounding', dict(desc, lstsq_leaves=floor_ / sc), scale=sc)
+            ctx.close('remove:idempotent', r2, r1, 1e-9, 'remove|idempotent|ill-conditioned',
+                      'removing the same (independent, ill-conditioned) modes twice changes the residual', desc, scale=sc)
+        except Exception as e:
+            ctx.check(False, 'remove:pure->0', f'remove|ill-conditioned|raises={type(e).__name__}', str(e), desc)
+
+
 def workload(ctx, lentil):
     rng = ctx.rng
     Z = zmod()
+    if ctx.shard % 2 == 0:
+        ill_conditioned(ctx, lentil, rng)
     n = ctx.count(120, 900)
     for i in range(n):
         shape = gen.rshape(rng, 8, 28)
